@@ -35,7 +35,10 @@ pub fn install_panic_hook() {
 /// Run `f`, turning a panic into `Err("message @ file:line")`.
 pub fn guard<R>(f: impl FnOnce() -> R) -> Result<R, String> {
     GUARDED.with(|g| *g.borrow_mut() += 1);
+    // a subject call that never returns (a loop that waits for a Buf to drain, ...) is seen by the stuck watchdog
+    let mark = crate::watch::enter_coarse();
     let r = catch_unwind(AssertUnwindSafe(f));
+    crate::watch::leave(mark);
     GUARDED.with(|g| *g.borrow_mut() -= 1);
     match r {
         Ok(v) => Ok(v),
